@@ -45,6 +45,11 @@ def mk(seq, share=False):
         else:
             d = ht.HTMLDependency(n, v, script={"src": "f%d.js" % i}) if i % 3 else (ht.HTMLDependency(n, v, all_files=bool(i % 2)) if i % 2 else ht.HTMLDependency(n, v))
             
+        if i % 11 == 3:
+            # a head_content() dependency takes part in the order like any other (its name is a content hash, so it is unique per text)
+            d = ht.head_content(ht.tags.title("hc for %s %s" % (n, v)))
+            out.append(d)
+            continue
         if i % 7 == 6:
             # the name was assigned after construction (a public attribute): the current name counts
             d = ht.HTMLDependency("made-as-" + n, v, script={"src": "f%d.js" % i})
@@ -169,7 +174,7 @@ def check_seq(ctx, seq, shapes=SHAPES, share=False):
             return False
     want = refdeps.resolve(deps, name=lambda d: d.name, version=lambda d: str(d.version))
     # the reference must use the user's version string, not the library's parse: map back
-    want = refdeps.resolve(list(zip(seq, deps)), name=lambda it: it[0][0], version=lambda it: it[0][1])
+    want = refdeps.resolve(list(zip(seq, deps)), name=lambda it: it[1].name, version=lambda it: str(it[1].version) if it[1].name.startswith("headcontent_") else it[0][1])
     want = [d for _, d in want]
     for shape in shapes:
         root = place(shape, deps)
@@ -211,7 +216,7 @@ def check_seq(ctx, seq, shapes=SHAPES, share=False):
         root.append(ht.span(newer), fresh)
         got = root.get_dependencies()
         want2 = refdeps.resolve(list(zip(list(seq) + [(seq[0][0], "99.0"), ("zz-late", "1.0")], deps + [newer, fresh])),
-                                name=lambda it: it[0][0], version=lambda it: it[0][1])
+                                name=lambda it: it[1].name, version=lambda it: str(it[1].version) if it[1].name.startswith("headcontent_") else it[0][1])
         ctx.count("oracle.resolution_after_append")
         if not same_ids(got, [d for _, d in want2]):
             ctx.violation("stale-dependencies-after-append", "get_dependencies() after appending newer dependencies is not the reference resolution",
@@ -242,7 +247,12 @@ def install_contract(ctx):
 
 # ------------------------------------------------------------------ validation matrix
 GOOD_SOURCES = [None, {"subdir": "x"}, {"package": "htmltools", "subdir": "libtest"}, {"href": "https://e.org/x"}, {"href": "h", "subdir": "s"}]
-BAD_SOURCES = ["lib/", ["subdir", "x"], ("href", "u"), 5, {"package": "htmltools"}, {}, {"path": "x"}]
+import pathlib as _pl
+import collections as _col
+import types as _tp
+BAD_SOURCES = ["lib/", ["subdir", "x"], ("href", "u"), 5, {"package": "htmltools"}, {}, {"path": "x"},
+               # path objects, byte strings and mapping-likes are not dicts either
+               _pl.Path("lib"), _pl.PurePosixPath("some/dir"), b"lib", _col.UserDict({"subdir": "x"}), _tp.MappingProxyType({"href": "u"}), [("subdir", "x")], True, 0.5]
 ITEM = {"script": ("src", {"src": "a.js", "defer": ""}), "stylesheet": ("href", {"href": "a.css", "media": "all"}),
         "meta": (("name", "content"), {"name": "n", "content": "c"})}
 
